@@ -439,6 +439,11 @@ func jrOne(rq *jrRequest) map[string]interface{} {
 		}
 		return v
 	case "either":
+		if !isProblem && strings.Contains(rq.Class, "inputs=emptyall") {
+			// a run of zero timesteps: every output series empty, the states as InitialiseStates(1) leaves them
+			// (defaults applied) -- no direct Run here: several kernels cannot take an empty series
+			return jrZeroSteps(rq, &doc, v, bad)
+		}
 		return v
 	}
 	if isProblem {
@@ -562,6 +567,73 @@ func jrOne(rq *jrRequest) map[string]interface{} {
 		want := sArr.Get2(0, k)
 		if !ok || !(got == want || (math.IsNaN(got) && math.IsNaN(want))) {
 			return bad("states-values", fmt.Sprintf("state %d = %v, the direct run gives %v", k, gv, want))
+		}
+	}
+	return v
+}
+
+func jrZeroSteps(rq *jrRequest, doc *jrDoc, v map[string]interface{}, bad func(kind, detail string) map[string]interface{}) map[string]interface{} {
+	var rd struct {
+		Parameters []struct {
+			Name  string
+			Value float64
+		}
+	}
+	json.Unmarshal(rq.Bytes, &rd)
+	m := sim.Catalog[rq.Model]()
+	desc := m.Description()
+	pArr := data.NewArray2DFloat64(len(desc.Parameters), 1)
+	for i, p := range desc.Parameters {
+		val := p.Default
+		for _, g := range rd.Parameters {
+			if g.Name == p.Name {
+				val = g.Value
+				break
+			}
+		}
+		pArr.Set2(i, 0, val)
+	}
+	m.ApplyParameters(pArr)
+	st := m.InitialiseStates(1)
+	series := func(x interface{}) bool { a, ok := x.([]interface{}); return ok && len(a) == 0 }
+	switch o := doc.RunResults.Outputs.(type) {
+	case map[string]interface{}:
+		for _, name := range desc.Outputs {
+			if !series(o[name]) {
+				return bad("zero-steps-outputs", fmt.Sprintf("zero timesteps but output %s is %v", name, o[name]))
+			}
+		}
+	case []interface{}:
+		if len(o) != len(desc.Outputs) {
+			return bad("zero-steps-outputs", fmt.Sprintf("zero timesteps: %d output series for %d outputs", len(o), len(desc.Outputs)))
+		}
+		for k, x := range o {
+			if !series(x) {
+				return bad("zero-steps-outputs", fmt.Sprintf("zero timesteps but output %s is %v", desc.Outputs[k], x))
+			}
+		}
+	default:
+		return bad("zero-steps-outputs", fmt.Sprintf("Outputs is %v", doc.RunResults.Outputs))
+	}
+	for k := 0; k < st.Len(1); k++ {
+		var gv interface{}
+		if rq.Split {
+			mp, _ := doc.RunResults.States.(map[string]interface{})
+			if k >= len(desc.States) {
+				continue
+			}
+			gv = mp[desc.States[k]]
+		} else {
+			arr, ok := doc.RunResults.States.([]interface{})
+			if !ok || len(arr) != st.Len(1) {
+				return bad("zero-steps-states", fmt.Sprintf("States is not an array of %d values: %v", st.Len(1), doc.RunResults.States))
+			}
+			gv = arr[k]
+		}
+		got, ok := safeNum(gv)
+		want := st.Get2(0, k)
+		if !ok || !(got == want || (math.IsNaN(got) && math.IsNaN(want))) {
+			return bad("zero-steps-states", fmt.Sprintf("zero timesteps: state %d = %v, initialised value %v", k, gv, want))
 		}
 	}
 	return v
